@@ -54,7 +54,7 @@ fn any_wait() -> Option<Duration> {
 
 /// One call, every schedule: up to 3 steps, each either "advance the clock by an
 /// arbitrary amount and poll" or "drop the call future".
-fn one_call(avail: Avail) {
+fn one_call(avail: Avail, steps: usize) {
     let max_calls: usize = kani::any();
     kani::assume(max_calls >= 1 && max_calls <= 1000);
     let wait = any_wait();
@@ -72,7 +72,7 @@ fn one_call(avail: Avail) {
     let mut result: Option<Result<u32, BulkheadServiceError<InnerErr>>> = None;
     let mut step = 0;
     let mut first_poll = true;
-    while step < 3 {
+    while step < steps {
         if result.is_some() || fut.is_none() {
             break;
         }
@@ -157,7 +157,13 @@ fn one_call(avail: Avail) {
 #[kani::unwind(5)]
 #[kani::stub(std::time::Instant::now, tokio::model::std_instant_now)]
 #[kani::stub(catch_unwind, crate::verif_kani::env::catch_unwind_stub)]
-fn one_call_any_availability() { one_call(Avail::Any) }
+fn one_call_any_availability() { one_call(Avail::Any, 3) }
+
+#[kani::proof]
+#[kani::unwind(5)]
+#[kani::stub(std::time::Instant::now, tokio::model::std_instant_now)]
+#[kani::stub(catch_unwind, crate::verif_kani::env::catch_unwind_stub)]
+fn one_call_two_polls() { one_call(Avail::Any, 2) }
 
 
 /// C20 — listeners only observe: the same call with two side-effecting
